@@ -461,6 +461,18 @@ func roundTrip(m message.Message, o rtOpts) (rtStats, *failure) {
 			return stt, &failure{"DecodeFrom reports a byte count different from the bytes it consumed", "bytecount:decode:" + cd.Name,
 				map[string]any{"codec": cd.Name, "reported": n2, "consumed": r.consumed, "available": len(data), "chunk": o.Chunk, "message": render(m)}}
 		}
+		if cd.Name == "json" {
+			// the same document as another JSON writer frames it (json.Encoder appends a newline, some peers pad with
+			// blanks): whatever the decoder pulls out of the reader has to be in its count
+			for _, trailer := range []string{"\n", "\r\n", "  \n"} {
+				rt := &countReader{data: append(append([]byte(nil), data...), trailer...), chunk: o.Chunk}
+				nt, _, errT := cd.Enc.DecodeFrom(rt)
+				if errT == nil && nt != rt.consumed {
+					return stt, &failure{"DecodeFrom reports a byte count different from the bytes it consumed (frame with trailing white space)", "bytecount:decode-with-trailer:" + cd.Name,
+						map[string]any{"codec": cd.Name, "reported": nt, "consumed": rt.consumed, "frame": len(data) + len(trailer), "trailer": fmt.Sprintf("%q", trailer), "message": render(m)}}
+				}
+			}
+		}
 		if !o.Judge {
 			continue
 		}
